@@ -85,7 +85,7 @@ func TestCorpus(t *testing.T) {
 	for _, p := range files {
 		r := decodeCorpusFile(p)
 		rel, _ := filepath.Rel(repoTestdata, p)
-		why, isExpected := expectedInvalid[rel]
+		why, isExpected := expectedInvalidReason(rel)
 		switch {
 		case r.err == nil:
 			if len(r.f.Deviations) != 0 {
